@@ -228,6 +228,13 @@ def run(ctx):
                         (any(l == '!ok(Reader::validation_status(self))' for l in L) and any(re.search(r'active_manifest', l) and (l.startswith('ok(') or l.endswith('=1')) for l in L))
                 else:
                     good = any(('Iterator::any' in l and l.startswith('!')) or ('is_empty' in l and not l.startswith('!')) or ('ok(' in l and l.startswith('!')) for l in L)
+                # when a legacy status list is present, EVERY entry other than the tolerated code counts as an error: the `any` predicate is exactly
+                # `code != signingCredential.untrusted` (an extra conjunct such as `!passed` lets failure codes through)
+                if good and any(l == 'ok(Reader::validation_status(self))' for l in L):
+                    anys = [l for l in L if l.startswith('!Iterator::any[')]
+                    exact = [l for l in anys if re.match(r'^!Iterator::any\[(PartialEq::ne\(ValidationStatus::code\(\w+\),SIGNING_CREDENTIAL_UNTRUSTED\)|!PartialEq::eq\(ValidationStatus::code\(\w+\),SIGNING_CREDENTIAL_UNTRUSTED\)|PartialEq::ne\(SIGNING_CREDENTIAL_UNTRUSTED,ValidationStatus::code\(\w+\)\))\]\(Reader::validation_status', l)]
+                    if anys and not exact:
+                        good = False
                 if not good:
                     bad = (key, L)
                     break
